@@ -304,6 +304,12 @@ Proof.
   unfold new_client. cbn zeta. rewrite poll_set_clients. sproj. rewrite map_app, in_app_iff. right; left; reflexivity.
 Qed.
 
+Lemma live_client_some i s c : live_client i s = Some c -> alookup Z.eqb i (clients s) = Some c /\ c_rm c = false.
+Proof.
+  unfold live_client. destruct (alookup Z.eqb i (clients s)) as [c0|]; [|discriminate].
+  destruct (c_rm c0) eqn:E; [discriminate|]. intros H; inversion H; subst. auto.
+Qed.
+
 (* ---------- actions ---------------------------------------------------------------------------------------- *)
 Lemma fresh_spec e s : fresh e s = true -> 0 <= ent_id e /\ ~ In e (used s).
 Proof.
@@ -464,10 +470,10 @@ Proof.
     apply fresh_spec in F. destruct F as [_ F].
     apply SInv_upd_client; [|apply new_client_has].
     apply SInv_new_client; [apply SInv_log; exact H | exact F].
-  - (* ARmClient *) destruct (alookup Z.eqb i (clients s)) as [c|] eqn:E; [|apply SInv_log; exact H].
+  - (* ARmClient *) destruct (live_client i s) as [c|] eqn:E0; [apply live_client_some in E0; destruct E0 as [E _]|apply SInv_log; exact H].
     destruct (c_cb c); apply SInv_log.
     + apply SInv_delete_client; exact H.
-    + apply SInv_closing_append; [exact H | eapply alookup_Some_key; [apply zeq | eauto]].
+    + apply SInv_upd_client; [exact H | eapply alookup_Some_key; [apply zeq | eauto]].
   - (* AListen *) destruct (fresh (Li i) s) eqn:F; [|apply SInv_log; exact H].
     apply fresh_spec in F. destruct F as [_ F].
     apply (SInv_listener_create i (log (EvCreated (Li i) 0 0) s)); [apply SInv_log; exact H | exact F].
@@ -478,7 +484,7 @@ Proof.
     apply (SInv_estab_create i (log (EvCreated (Es i) 0 0) s)); [apply SInv_log; exact H | exact F].
   - (* ARmEstab *) destruct (zmem i (estabs s)); [|apply SInv_log; exact H].
     apply SInv_log. apply SInv_estab_remove; exact H.
-  - (* AWrite *) destruct (alookup Z.eqb i (clients s)) as [c|] eqn:E; [|apply SInv_log; exact H].
+  - (* AWrite *) destruct (live_client i s) as [c|] eqn:E0; [apply live_client_some in E0; destruct E0 as [E _]|apply SInv_log; exact H].
     assert (In i (map fst (clients s))) as Hi by (eapply alookup_Some_key; [apply zeq | eauto]).
     destruct (n <? 1); [apply SInv_log; exact H|].
     destruct (c_back c =? 0).
@@ -490,18 +496,18 @@ Proof.
       * destruct (n <=? Z.max 0 (send_result n o)); apply SInv_log; [apply SInv_log; exact H1|].
         apply SInv_client_set; [apply SInv_log; exact H1 | exact Hi1 | destruct (c_susp c); reflexivity | destruct (c_susp c); reflexivity].
     + apply SInv_log. apply SInv_upd_client; assumption.
-  - (* ARead *) destruct (alookup Z.eqb i (clients s)) as [c|] eqn:E; [|apply SInv_log; exact H].
+  - (* ARead *) destruct (live_client i s) as [c|] eqn:E0; [apply live_client_some in E0; destruct E0 as [E _]|apply SInv_log; exact H].
     assert (In i (map fst (clients s))) as Hi by (eapply alookup_Some_key; [apply zeq | eauto]).
     cbn zeta. set (o := next_recv s). set (s1 := drop_recv s).
     assert (SInv s1) as H1 by (apply SInv_drop_recv; exact H).
     assert (In i (map fst (clients s1))) as Hi1 by exact Hi.
     destruct (failed_io (recv_result o)); apply SInv_log; [|apply SInv_log; exact H1].
     apply SInv_closing_append; [apply SInv_log; exact H1 | exact Hi1].
-  - (* ASuspend *) destruct (alookup Z.eqb i (clients s)) as [c|] eqn:E; [|apply SInv_log; exact H].
+  - (* ASuspend *) destruct (live_client i s) as [c|] eqn:E0; [apply live_client_some in E0; destruct E0 as [E _]|apply SInv_log; exact H].
     assert (In i (map fst (clients s))) as Hi by (eapply alookup_Some_key; [apply zeq | eauto]).
     destruct (c_susp c); [exact H|].
     apply SInv_client_set; [exact H | exact Hi | destruct (c_back c =? 0); reflexivity | destruct (c_back c =? 0); reflexivity].
-  - (* AResume *) destruct (alookup Z.eqb i (clients s)) as [c|] eqn:E; [|apply SInv_log; exact H].
+  - (* AResume *) destruct (live_client i s) as [c|] eqn:E0; [apply live_client_some in E0; destruct E0 as [E _]|apply SInv_log; exact H].
     assert (In i (map fst (clients s))) as Hi by (eapply alookup_Some_key; [apply zeq | eauto]).
     destruct (negb (c_susp c)); [exact H|].
     apply SInv_client_set; [exact H | exact Hi | destruct (c_back c =? 0); reflexivity | destruct (c_back c =? 0); reflexivity].
@@ -584,8 +590,9 @@ Proof.
   revert s. induction fuel as [|f IH]; intros s H; cbn [closing_phase]; [apply SInv_set_stuck; exact H|].
   destruct (closing s) as [|i r] eqn:E; [exact H|].
   assert (SInv (set_closing r s)) as H1 by (eapply SInv_closing_pop; eauto).
-  sproj. destruct (alookup Z.eqb i (clients s)) as [c|]; [destruct (c_cb c)|]; apply IH.
+  sproj. destruct (alookup Z.eqb i (clients s)) as [c|]; [destruct (c_cb c); [|destruct (c_rm c)]|]; apply IH.
   - apply SInv_callback; exact H1.
+  - apply SInv_delete_client; exact H1.
   - apply SInv_log. apply SInv_delete_client; exact H1.
   - exact H1.
 Qed.
@@ -606,6 +613,7 @@ Proof.
   assert (SInv s2) as H2 by (apply SInv_log; apply SInv_run_script; apply SInv_log; exact H1).
   destruct acc.
   - destruct (alookup Z.eqb i (clients s2)) as [c|] eqn:E; [|exact H2].
+    destruct (c_rm c); [apply SInv_delete_client; exact H2|].
     apply SInv_upd_client; [exact H2 | eapply alookup_Some_key; [apply zeq | eauto]].
   - apply SInv_delete_client; exact H2.
 Qed.
@@ -622,7 +630,7 @@ Proof.
     + apply SInv_callback. apply SInv_poll_remove. apply SInv_upd_client; [apply SInv_log; exact H1 | exact Hi1].
     + destruct (c_back c - Z.max 0 (send_result (c_back c) o) =? 0).
       * apply SInv_callback. apply SInv_client_set; [apply SInv_log; exact H1 | exact Hi1 | destruct (c_susp c); reflexivity | destruct (c_susp c); reflexivity].
-      * assert (SInv (upd_client i (mkCl (c_cb c) (c_back c - Z.max 0 (send_result (c_back c) o)) (c_susp c)) (log (EvSend i (c_back c) (send_result (c_back c) o) true) s1))) as H2
+      * assert (SInv (upd_client i (mkCl (c_cb c) (c_back c - Z.max 0 (send_result (c_back c) o)) (c_susp c) (c_rm c)) (log (EvSend i (c_back c) (send_result (c_back c) o) true) s1))) as H2
           by (apply SInv_upd_client; [apply SInv_log; exact H1 | exact Hi1]).
         destruct ar; [apply SInv_callback; exact H2 | exact H2].
   - cbn zeta. apply SInv_callback. apply SInv_poll_set; [exact H|].
@@ -695,8 +703,8 @@ Lemma SInv_run_loop fuel items s : SInv s -> SInv (run_loop fuel items s).
 Proof.
   revert items s. induction fuel as [|f IH]; intros items s H; cbn [run_loop]; [apply SInv_set_stuck; exact H|].
   cbn zeta.
-  set (s1 := closing_phase f (timer_phase f (clk s) (log (EvNow (clk s)) s))).
-  assert (SInv s1) as H1 by (apply SInv_closing_phase; apply SInv_timer_phase; apply SInv_log; exact H).
+  set (s1 := closing_phase f (timer_phase f (clk s) (log (EvSel (sel_view (selected s))) (log (EvNow (clk s)) s)))).
+  assert (SInv s1) as H1 by (apply SInv_closing_phase; apply SInv_timer_phase; apply SInv_log; apply SInv_log; exact H).
   destruct (stuck s1); [exact H1|].
   match goal with |- context [poll ?t items s1] => set (tmo := t) end.
   destruct (poll tmo items s1) as [[s2 evt] items2] eqn:P.
